@@ -73,9 +73,9 @@ def _unwrap_mapped_annotation(type_hint: TypeHint) -> TypeHint:
     return type_hint
 
 
-def _get_type_for_column(column: "ColumnElement", type_hints: Mapping[str, TypeHint]):
+def _get_type_for_column(attr_name: str, column: "ColumnElement", type_hints: Mapping[str, TypeHint]):
     try:
-        return _unwrap_mapped_annotation(type_hints[column.name])
+        return _unwrap_mapped_annotation(type_hints[attr_name])
     except KeyError:
         if column.nullable:
             return Optional[column.type.python_type]
@@ -131,14 +131,15 @@ def _get_input_shape(
     autoincrement_column = _get_autoincrement_column(table)
     fields = []
     params = []
-    for column in columns:
+    # name of column can differ from name of mapped attribute: mapped_column("column_name")
+    for attr_name, column in columns.items():
         if not isinstance(column, sqlalchemy.Column):
             continue
 
         fields.append(
             InputField(
-                id=column.key,
-                type=_get_type_for_column(column, type_hints),
+                id=attr_name,
+                type=_get_type_for_column(attr_name, column, type_hints),
                 default=_get_default(column.default),
                 is_required=_is_input_required_for_column(column, autoincrement_column),
                 metadata=column.info,
@@ -147,8 +148,8 @@ def _get_input_shape(
         )
         params.append(
             Param(
-                field_id=column.key,
-                name=column.key,
+                field_id=attr_name,
+                name=attr_name,
                 kind=ParamKind.KW_ONLY,
             ),
         )
@@ -193,14 +194,14 @@ def _get_output_shape(
 ) -> OutputShape:
     output_fields = [
         OutputField(
-            id=column.name,
-            type=_get_type_for_column(column, type_hints),
+            id=attr_name,
+            type=_get_type_for_column(attr_name, column, type_hints),
             default=_get_default(column.default),
             metadata=column.info,
             original=IdWrapper(column),
-            accessor=create_attr_accessor(column.name, is_required=True),
+            accessor=create_attr_accessor(attr_name, is_required=True),
         )
-        for column in columns
+        for attr_name, column in columns.items()
         if isinstance(column, sqlalchemy.Column)
     ]
     for relationship in relationships:
